@@ -117,6 +117,7 @@ type reqObs struct {
 	viaH3       bool
 	err         error
 	errClass    string
+	timedOut    bool // the caller's deadline passed before the call returned
 	ptrSame     bool
 	urlBefore   string
 	urlAfter    string
@@ -664,6 +665,7 @@ func execute(t *testing.T, prop string, p *Plan) *core.Result {
 		}
 		client := &http.Client{Transport: tr, CheckRedirect: func(*http.Request, []*http.Request) error { return http.ErrUseLastResponse }}
 
+		anyTimeout := false
 		for i, q := range p.Reqs {
 			o := &reqObs{serveID: -1}
 			obs[i] = o
@@ -671,6 +673,11 @@ func execute(t *testing.T, prop string, p *Plan) *core.Result {
 			r.cur = i
 			r.mu.Unlock()
 			ctx := context.WithValue(context.Background(), reqKey, i)
+			cancelReq := func() {}
+			if q.TimeoutMs > 0 {
+				ctx, cancelReq = context.WithTimeout(ctx, time.Duration(q.TimeoutMs)*time.Millisecond)
+				anyTimeout = true
+			}
 			var body io.Reader
 			if q.BodyLen > 0 {
 				body = bytes.NewReader(bytes.Repeat([]byte{'q'}, q.BodyLen))
@@ -678,6 +685,7 @@ func execute(t *testing.T, prop string, p *Plan) *core.Result {
 			req, err := http.NewRequestWithContext(ctx, q.Method, q.URL(), body)
 			if err != nil {
 				o.err, o.errClass = err, "bad-request"
+				cancelReq()
 				continue
 			}
 			req.Header.Set("X-Sim-Req", strconv.Itoa(i))
@@ -721,6 +729,8 @@ func execute(t *testing.T, prop string, p *Plan) *core.Result {
 					resp.Body.Close()
 				}
 			}
+			o.timedOut = q.TimeoutMs > 0 && (err != nil || o.bodyErr) && (errors.Is(err, context.DeadlineExceeded) || ctx.Err() != nil)
+			cancelReq()
 			o.urlAfter, o.hostAfter = req.URL.String(), req.Host
 			o.queries = srv.LogLen() - before
 			o.elapsedNs = int64(time.Since(t0))
@@ -728,6 +738,12 @@ func execute(t *testing.T, prop string, p *Plan) *core.Result {
 		}
 		res.SimNs = w.Now()
 
+		if anyTimeout {
+			// dials that outlived their requests run into the Dialer's own
+			// per-attempt timeout
+			time.Sleep(10 * time.Minute)
+			synctest.Wait()
+		}
 		// teardown: nothing of the harness may outlive the run
 		tr.HTTPTransport.CloseIdleConnections()
 		for _, hs := range servers {
@@ -763,5 +779,13 @@ func execute(t *testing.T, prop string, p *Plan) *core.Result {
 		return res
 	}
 	judge(prop, p, r, obs, res)
+	for _, q := range p.Reqs {
+		if q.TimeoutMs > 0 {
+			// what a dial that outlives its request still gets to do, and in which
+			// order, is the runtime's choice: the verdicts do not depend on it, the
+			// event log does
+			res.Arbitrated = true
+		}
+	}
 	return res
 }
